@@ -185,6 +185,7 @@ func c07Units(tier string) []Unit {
 		{"multi-result", alpha{scopes: []int{0, 1}, ctors: []*uFunc{pMe, pABe, pCe}, invokes: []*uFunc{iO, iC, iBn}}, []string{"pMe", "pABe", "pCe"}, prefixChild},
 		{"decorators", alpha{scopes: []int{0, 1}, ctors: []*uFunc{pA, pB}, decos: []*uFunc{dAe, dABe}, invokes: []*uFunc{iA, iB}}, []string{"dAe", "dABe"}, prefixChild},
 		{"group-decorator", alpha{scopes: []int{0, 1}, ctors: []*uFunc{fG1e, fG1}, decos: []*uFunc{dGe}, invokes: []*uFunc{iG, iGs}}, []string{"fG1e", "dGe"}, prefixChild},
+		{"group-decorators-two-levels", alpha{scopes: []int{0, 1}, ctors: []*uFunc{fG1}, decos: []*uFunc{dGe, dG}, invokes: []*uFunc{iG}}, []string{"dGe"}, prefixChild},
 		{"deco-over-failing-ctor", alpha{scopes: []int{0, 1}, ctors: []*uFunc{pAe, pBe}, decos: []*uFunc{dAe}, invokes: []*uFunc{iA, iB}}, []string{"pAe", "dAe"}, prefixChild},
 		{"error-not-last", alpha{scopes: []int{0, 1}, ctors: []*uFunc{pAef, pBem}, decos: []*uFunc{dAef}, invokes: []*uFunc{iA, iB, iBn}}, []string{"pAef", "pBem", "dAef"}, prefixChild},
 		{"decorator-dependency-fails", alpha{scopes: []int{0, 1}, ctors: []*uFunc{pA, pB, pC0e}, decos: []*uFunc{dAwC}, invokes: []*uFunc{iBo, iB, iA}}, []string{"pC0e"}, prefixChild},
@@ -208,7 +209,9 @@ func c07Units(tier string) []Unit {
 			}
 			for _, rec := range []bool{false, true} {
 				bb := b
-				if len(f.a.decos) > 0 && f.name != "decorator-dependency-fails" {
+				if f.name == "group-decorators-two-levels" {
+					bb.Provides, bb.Decorates = 1, 2
+				} else if len(f.a.decos) > 0 && f.name != "decorator-dependency-fails" {
 					bb.Provides = 2
 					if bb.Decorates < 2 && f.name == "decorators" {
 						bb.Decorates = 2
@@ -347,6 +350,7 @@ func c13Units(tier string) []Unit {
 	}
 	fams := []family{
 		{"positional-chain", alpha{scopes: []int{0, 1}, ctors: []*uFunc{pAe, pBe, pCbe}, export: true, invokes: []*uFunc{iAe, iBe, iCe}}, []string{"pAe", "pBe", "pCbe", "iAe", "iBe", "iCe"}, prefixChild},
+		{"custom-error-types", alpha{scopes: []int{0, 1}, ctors: []*uFunc{pAce, pB}, invokes: []*uFunc{iAce, iBce}}, []string{"pAce", "iAce", "iBce"}, prefixChild},
 		{"objects-groups", alpha{scopes: []int{0, 1}, ctors: []*uFunc{pAe, pMe, fG1e, pCe}, invokes: []*uFunc{iOe, iCe}}, []string{"pMe", "fG1e", "pCe", "iOe"}, prefixChild},
 		{"decorators", alpha{scopes: []int{0, 1}, ctors: []*uFunc{pAe, pBe}, decos: []*uFunc{dAe, dABe}, invokes: []*uFunc{iAe, iBe}}, []string{"dAe", "dABe", "pAe"}, prefixChild},
 		{"group-decorator", alpha{scopes: []int{0, 1}, ctors: []*uFunc{fG1e, pCe}, decos: []*uFunc{dGe}, invokes: []*uFunc{iCe, iOe}}, []string{"dGe", "fG1e"}, prefixChild},
@@ -384,3 +388,8 @@ func c13Units(tier string) []Unit {
 	}
 	return units
 }
+
+var (
+	iAce = u.F("iAce", "A", "", u.CustomErr) // invoked functions whose last result implements error without being error
+	iBce = u.F("iBce", "B", "", u.CustomErr)
+)
